@@ -11,8 +11,8 @@
        (binding evidence; a behaviour-preserving refactoring must not raise an alarm). *)
 EXTENDS NitroMVCC, Json, TLCExt
 
-VARIABLES l, bad, drift
-tvars == <<vars, l, bad, drift>>
+VARIABLES l, bad, drift, stored
+tvars == <<vars, l, bad, drift, stored>>
 
 TLog == ndJsonDeserialize("trace.ndjson")
 Ev == TLog[l]
@@ -73,6 +73,7 @@ DriftChecks ==
 
 Judge(cs) == /\ bad' = Note(bad, First(cs \o ObsChecks), "BAD")
              /\ drift' = Note(drift, First(DriftChecks), "DRIFT")
+             /\ UNCHANGED stored
 
 Step(e) == l <= N /\ Ev.e = e /\ l' = l + 1
 LiveKV(k) == CHOOSE e \in live : e.k = k
@@ -85,8 +86,8 @@ ResetState ==
   /\ it' = [i \in Iters |-> NoIt]
   /\ live' = {} /\ view' = [s \in 1..MaxSn |-> <<>>]
 
-TInit == l = 2 /\ bad = "" /\ drift = "" /\ TLog[1].e = "Init" /\ Init
-TReset == Step("Init") /\ ResetState /\ UNCHANGED <<bad, drift>>
+TInit == l = 2 /\ bad = "" /\ drift = "" /\ stored = <<>> /\ TLog[1].e = "Init" /\ Init
+TReset == Step("Init") /\ ResetState /\ stored' = <<>> /\ UNCHANGED <<bad, drift>>
 
 TPut == /\ Step("Put") /\ Put(Ev.w, Ev.k, Ev.v)
         /\ Judge(<< <<Ev.ok = (Ev.k \notin LiveKeys), "C02:Put succeeded on a live key or was rejected for an absent key">> >>)
@@ -160,11 +161,30 @@ TVisit ==
                     \A x \in Rng(ToKVSeq(Ev.res[a])), y \in Rng(ToKVSeq(Ev.res[b])) : x.k < y.k,
                 "C10:shards overlap or are out of order">> >>)
 
+(* ---- backup / restore (C05): the content restored must be the stored snapshot's view; the model then
+        continues as the restored instance (every item born in epoch 0, one open snapshot) ---- *)
+TStoreBegin == Step("StoreBegin") /\ stored' = view[Ev.sn] /\ UNCHANGED <<vars, bad, drift>>
+TStore == /\ Step("Store") /\ UNCHANGED vars
+          /\ Judge(<< <<Ev.ok, "C05:StoreToDisk failed although no fault was injected">> >>)
+RestoredVers == {[k |-> stored[i].k, v |-> stored[i].v, born |-> 0, dead |-> 0] : i \in 1..Len(stored)}
+TLoad ==
+  /\ Step("Load")
+  /\ IF Ev.ok
+       THEN /\ vers' = RestoredVers /\ currSn' = 2 /\ itemsCount' = Len(stored)
+            /\ wcount' = [w \in Writers |-> 0] /\ wgc' = [w \in Writers |-> {}]
+            /\ snaps' = [s \in 1..MaxSn |-> IF s = 1 THEN [ref |-> 1, count |-> Len(stored), gc |-> {}, st |-> "open"] ELSE NoSnap]
+            /\ lastGCSn' = 0 /\ inflight' = <<>> /\ it' = [i \in Iters |-> NoIt]
+            /\ live' = {stored[i] : i \in 1..Len(stored)}
+            /\ view' = [s \in 1..MaxSn |-> IF s = 1 THEN stored ELSE <<>>]
+            /\ Judge(<< <<ToKVSeq(Ev.ritems) = stored, "C05:the restored snapshot's items differ from the stored snapshot (missing, extra, duplicated or out of order)">>,
+                        <<Ev.rcount = Len(stored), "C05:Count() of the restored snapshot differs from the stored snapshot">> >>)
+       ELSE /\ UNCHANGED <<vars, drift, stored>>
+            /\ bad' = Note(bad, "C05:LoadFromDisk failed on an undamaged backup", "BAD")
 TDone == l = N + 1 /\ UNCHANGED tvars
 
 TNext == \/ TReset \/ TPut \/ TDelete \/ TGetNode \/ TNewSnapshot \/ TOpen \/ TCloseSnap \/ TGC \/ TGCUnlink
          \/ TIterNew \/ TIterSetRate \/ TIterSeek \/ TIterSeekFirst \/ TIterNext \/ TIterRefresh \/ TIterClose
-         \/ TVisit \/ TDone
+         \/ TVisit \/ TStoreBegin \/ TStore \/ TLoad \/ TDone
 TSpec == TInit /\ [][TNext]_tvars
 Good == bad = ""
 =============================================================================
